@@ -223,6 +223,14 @@ def run_property(prop, harnesses, tier, seed, timeout, bounds, assumptions, func
             else:
                 r["final"] = "inconclusive"
                 inconclusive.append(r)
+    # a twin that cannot be refuted next to a main obligation with a replayed counterexample is not vacuity: the replayed
+    # counterexample itself reached the assertion (e.g. a recorded finding that rejects every value of the schema)
+    for hname, rs in by_h.items():
+        if any(x["kind"] == "main" and x.get("final") in ("known", "violation") for x in rs):
+            for x in rs:
+                if x["kind"] == "twin" and x.get("final") == "vacuous_or_inconclusive":
+                    x["final"] = "not_needed(main has a replayed counterexample)"
+                    inconclusive.remove(x)
     # a main obligation counts as discharged only if all twins of its harness are witnesses
     for hname, rs in by_h.items():
         twins_ok = all(x["final"] == "witness" for x in rs if x["kind"] == "twin")
